@@ -30,6 +30,7 @@ func scenarios(tier string) []sched.Scenario {
 	mk := func() []oxc.Oracle { return []oxc.Oracle{&oxc.LogOracle{}} }
 	specs := []oxc.ScenarioSpec{
 		{Name: "rolling-isolation", Fault: "rolling-isolation", Clients: 0, PerCli: 0, SyncData: true},
+		{Name: "failed-become-leader", Fault: "failed-become-leader", Clients: 0, PerCli: 0, SyncData: true},
 		{Name: "client-cancel", Fault: "client-cancel", Clients: 2, PerCli: 2, SyncData: true},
 		{Name: "leader-crash", Fault: "leader-crash", Clients: 2, PerCli: 1, SyncData: true},
 		{Name: "spurious-failover", Fault: "spurious-failover", Clients: 2, PerCli: 1, SyncData: true},
